@@ -176,8 +176,10 @@ class XDriver(tl.Driver):
                 x, y, z, tt, merge = op[1:6]
                 self.alg.want_span(ids, z - x + 1, tt - y + 1)
                 a = None
+                form = op[6] if len(op) > 6 else 'tuple'
+                area = (x, y, z, tt) if form == 'tuple' else '%s:%s' % (a1(x, y), a1(z, tt))
                 try:
-                    ret = bool(timed(t.set_span, (x, y, z, tt), merge=bool(merge)))
+                    ret = bool(timed(t.set_span, area, merge=bool(merge)))
                 finally:
                     mid = 0
                     if merge:
@@ -192,7 +194,10 @@ class XDriver(tl.Driver):
                     a = (k, x, y, z, tt, bool(merge), mid)
             elif k == 'del_span':
                 a = (k, op[1], op[2])
-                ret = bool(timed(t.del_span, (op[1], op[2])))
+                form = op[3] if len(op) > 3 else 'tuple'
+                area = {'tuple': (op[1], op[2]), 'str': a1(op[1], op[2]), 'area': (op[1], op[2], op[1] + 1, op[2] + 2),
+                        'area_str': '%s:%s' % (a1(op[1], op[2]), a1(op[1] + 2, op[2] + 1))}[form]
+                ret = bool(timed(t.del_span, area))
             else:
                 a, raised = self.apply(op)
                 a = ('core', a)
@@ -201,6 +206,15 @@ class XDriver(tl.Driver):
         except Exception as e:
             raised = repr(e)
         return a, raised, ret
+
+
+def a1(x, y):
+    """'A1' form of a 0-based (x, y): own base-26 (bijective) conversion, independent of odfdo.utils.coordinates"""
+    n, out = x + 1, ''
+    while n > 0:
+        n, r = divmod(n - 1, 26)
+        out = chr(65 + r) + out
+    return '%s%d' % (out, y + 1)
 
 
 def c_xop(a):
@@ -417,7 +431,7 @@ def g_xop(rng, nodes, alg_rows, prev, maxw, maxh):
         if prev[0] in ('rstrip', 'optimize_width', 'transpose') and rng.random() < 0.6:
             return list(prev)
         if prev[0] == 'set_span':
-            return ['del_span', prev[1], prev[2]]
+            return ['del_span', prev[1], prev[2], rng.choice(['tuple', 'tuple', 'str', 'area'])]
     k = rng.choice(['transpose', 'transpose_area', 'rstrip', 'rstrip', 'optimize_width', 'optimize_width', 'set_span', 'set_span', 'set_span',
                     'del_span', 'del_span', 'core', 'core'])
     y = max(0, tl.pick_pos(rng, rr, False))
@@ -440,12 +454,12 @@ def g_xop(rng, nodes, alg_rows, prev, maxw, maxh):
             b, _ = tl.boundaries(cellreps)
             z = rng.choice(b)
             if z >= x: dx = min(z - x, 5)
-        return [k, x, y, x + dx, y + dy, rng.random() < 0.25]
+        return [k, x, y, x + dx, y + dy, rng.random() < 0.25, 'str' if rng.random() < 0.2 else 'tuple']
     if k == 'del_span':
         sp = spans_in(nodes, alg_rows)
         if sp and rng.random() < 0.75:
             x, y = rng.choice(sp)
-        return [k, x, y]
+        return [k, x, y, rng.choice(['tuple', 'tuple', 'tuple', 'str', 'area', 'area_str'])]
     # probe write of the C01 alphabet, around the (new) edges
     return tl.g_op(rng, nodes, CORE_KINDS, maxw + 2, maxh + 2)
 
